@@ -6,6 +6,7 @@ H_FAT = '''From Coq Require Import List NArith ZArith Bool.
 From NV Require Import Lib.Res Gen.Fat Fat.Spec.
 From NV Require Import FatTable.Model FatTable.ProofsBase FatTable.ProofsSet32 FatTable.Proofs.
 From NV Require Import FatRead.Model FatRead.ProofsBase FatRead.ProofsGeom FatRead.ProofsRead FatRead.ProofsTime FatRead.Proofs.
+From NV Require FatDir.Model FatDir.ProofsBase FatDir.ProofsSpec.
 Import ListNotations.
 Open Scope N_scope.'''
 
@@ -33,6 +34,7 @@ mkprops.emit('/verif/coq/Props/C03.v',
      ('C03_read_loop_refines', 'FatRead.ProofsRead.read_loop_refines', 'repeating raw reads (what io.BufferedReader does) yields exactly the requested slice'),
      ('C03_reads_preserve_file', 'FatRead.ProofsRead.run_preserves_file', 'reading never changes map or size (and no data area occurs in any result type)'),
      ('C03_timestamp_spec', 'FatRead.ProofsTime.timestamp_spec', None),
+     ('C03_directory_decode_spec', 'FatDir.ProofsSpec.decode_agrees_with_spec', 'the directory decoder of the code (_group_entries / _split_entries / _join_lfn_entries) = the specification decoder on every directory region whose long-name runs are valid or absent: same names, aliases, raw entries, offsets, no orphans'),
     ], tail=SRC03)
 
 H_ALLOC = '''From Coq Require Import List NArith ZArith Bool.
@@ -42,7 +44,7 @@ From NV Require Import FatAlloc.Model FatAlloc.ProofsBase FatAlloc.ProofsGrow Fa
 Import ListNotations.
 Open Scope N_scope.'''
 
-H_DATA = H_ALLOC.replace('Import ListNotations.', 'From NV Require Import FatRead.Model FatData.Model FatData.Spec FatData.ProofsBase FatData.Proofs.\nImport ListNotations.')
+H_DATA = H_ALLOC.replace('Import ListNotations.', 'From NV Require Import FatRead.Model FatData.Model FatData.Spec FatData.ProofsBase FatData.Proofs.\nFrom NV Require FatDir.Model FatDir.ProofsBase FatDir.ProofsView FatDir.ProofsClean FatDir.ProofsOps FatDir.ProofsAppend FatDir.ProofsMain.\nImport ListNotations.')
 
 mkprops.emit('/verif/coq/Props/C04.v',
     'C04 -- Any history of mutations leaves a consistent volume with expected content. Statements only.\n'
@@ -63,6 +65,8 @@ mkprops.emit('/verif/coq/Props/C04.v',
      ('C04_data_run_refines_ok', 'FatData.Proofs.FD_run_refines_ok', None),
      ('C04_holes_read_zero', 'FatData.Proofs.FD_holes_read_zero', 'a write past end of file: the hole reads as zeros whatever stale bytes the clusters held'),
      ('C04_other_clusters_untouched', 'FatData.Proofs.FD_other_clusters_untouched', 'frame: clusters outside the file s chain keep their bytes, foreign FAT entries are unchanged'),
+     ('C04_dir_update_in_place', 'FatDir.ProofsOps.setitem_existing_updates_in_place', 'stage E (directory entries): storing an existing name (any case variant or its alias) rewrites exactly that one record, keeping the stored name fields and attr2'),
+     ('C04_dir_delitem_spec', 'FatDir.ProofsOps.delitem_spec', 'stage E: deleting removes exactly that group from the listing; every other group is byte-identical and every other key resolves as before'),
      ('C04_history_partial', 'FatAlloc.Proofs.FA_history', 'ANY sequence of file operations on any family of files sharing one table: every file stays well-formed, chains stay disjoint, foreign entries (directories, reserved) keep their value'),
     ], tail='''
 Theorem C04_source_facts :
@@ -85,6 +89,8 @@ mkprops.emit('/verif/coq/Props/C10.v',
      ('C10_write_enospc_wf', 'FatAlloc.Proofs.FA_write_wf', 'a write that runs out of space leaves the file well-formed, holding a prefix, size and chain in agreement'),
      ('C10_truncate_wf', 'FatAlloc.Proofs.FA_truncate_wf', None),
      ('C10_data_step_enospc', 'FatData.Proofs.FD_step_enospc', 'at byte level: a step that fails does so with ENOSPC, keeps the invariant; a failed truncate changes nothing, a failed write keeps a strict prefix of the buffer'),
+     ('C10_clean_preserves_listing', 'FatDir.ProofsClean.clean_preserves_listing', 'compaction of a directory (run when a fixed root is full) keeps the listing and every look-up, leaves no deleted record before the new end, zero-fills the tail'),
+     ('C10_root_full_enospc', 'FatDir.ProofsMain.root_full_enospc', 'a fixed root: ENOSPC exactly when, even after compaction, the new records plus the end-of-directory record do not fit; the directory then lists and resolves exactly as before'),
      ('C10_history_wf', 'FatAlloc.Proofs.FA_history', None),
     ], tail='''
 Theorem C10_source_facts :
@@ -98,6 +104,7 @@ print('ok')
 H_NAMES = '''From Coq Require Import List NArith ZArith Bool.
 From NV Require Import Lib.Res Gen.Fat FatNames.Model FatNames.ProofsAlias FatNames.ProofsValid FatNames.ProofsLfn.
 From NV Require Fat.Spec.
+From NV Require FatDir.Model FatDir.ProofsBase FatDir.ProofsMain.
 Import ListNotations.
 Open Scope N_scope.'''
 
@@ -114,6 +121,7 @@ mkprops.emit('/verif/coq/Props/C11.v',
      ('C11_short_only_shows_name', 'FatNames.ProofsValid.short_only_shows_name', None),
      ('C11_alias_standard', 'FatNames.ProofsValid.alias_standard', 'the alias uses only legal 8.3 bytes, 8+3 long'),
      ('C11_checksum_standard', 'FatNames.ProofsValid.checksum_standard', None),
+     ('C11_created_entry_found_no_shadowing', 'FatDir.ProofsMain.setitem_new_then_getitem', 'a new name is appended: every case variant of it resolves to the new entry, every key that resolved before still resolves to the same entry, the listing grows by exactly that name (no shadowing, no merging)'),
      ('C11_alias_unique', 'FatNames.ProofsAlias.alias_unique', 'the alias differs from every existing alias and long name of the directory'),
      ('C11_unique_sfn_least', 'FatNames.ProofsAlias.unique_sfn_least', 'the numeric tail is the least one not in use'),
      ('C11_unique_sfn_enospc', 'FatNames.ProofsAlias.unique_sfn_enospc', None),
